@@ -10,17 +10,38 @@ fn c02_bound_and_info_accessors() {
     let rb = RegretBound::new([a, b]);
     kani::cover!(a > b, "player one's bound larger");
     kani::cover!(a == f64::INFINITY && b == f64::INFINITY, "no iteration ran");
-    assert!(rb.player_regret_bound(PlayerNum::One) == a && rb.player_regret_bound(PlayerNum::Two) == b, "C02 accessors: per-player bound returned for the wrong player");
+    assert!(
+        rb.player_regret_bound(PlayerNum::One) == a && rb.player_regret_bound(PlayerNum::Two) == b,
+        "C02 accessors: per-player bound returned for the wrong player"
+    );
     let tot = rb.regret_bound();
-    assert!(tot >= a && tot >= b && (tot == a || tot == b), "C02 accessors: total bound is not the larger of the two per-player bounds");
+    assert!(
+        tot >= a && tot >= b && (tot == a || tot == b),
+        "C02 accessors: total bound is not the larger of the two per-player bounds"
+    );
     let u: f64 = kani::any();
     kani::assume(!u.is_nan());
-    let info = StrategiesInfo { util: u, regrets: [a, b] };
-    assert!(info.player_regret(PlayerNum::One) == a && info.player_regret(PlayerNum::Two) == b, "C01 accessors: per-player regret returned for the wrong player");
+    let info = StrategiesInfo {
+        util: u,
+        regrets: [a, b],
+    };
+    assert!(
+        info.player_regret(PlayerNum::One) == a && info.player_regret(PlayerNum::Two) == b,
+        "C01 accessors: per-player regret returned for the wrong player"
+    );
     let r = info.regret();
-    assert!(r >= a && r >= b && (r == a || r == b), "C01 accessors: total regret is not the larger of the two player regrets");
-    assert!(info.player_utility(PlayerNum::One) == u, "C01 accessors: player one's utility");
-    assert!(info.player_utility(PlayerNum::Two) == -u, "C01 accessors: player two's utility is not the negation of player one's");
+    assert!(
+        r >= a && r >= b && (r == a || r == b),
+        "C01 accessors: total regret is not the larger of the two player regrets"
+    );
+    assert!(
+        info.player_utility(PlayerNum::One) == u,
+        "C01 accessors: player one's utility"
+    );
+    assert!(
+        info.player_utility(PlayerNum::Two) == -u,
+        "C01 accessors: player two's utility is not the negation of player one's"
+    );
 }
 
 #[cfg(test)]
